@@ -280,6 +280,12 @@ func c06(c *Ctx) {
 	for i, s := range samples {
 		r := results[fmt.Sprint(i)]
 		if r.Valid == nil {
+			if strings.Contains(r.SchemaError, "PointerToNowhere") || strings.Contains(r.SchemaError, "Unresolvable") {
+				// the operation's schema refers to a component the document does not have: nothing validates against it
+				c.R.Violate(s.caseID, "schema-has-unresolvable-reference", "", map[string]any{"proto": s.proto, "what": s.what, "schema": s.schema, "validator_error": firstLines(r.SchemaError, 2)})
+				c.R.Decided(s.caseID)
+				continue
+			}
 			c.R.Inconclusive(s.caseID, "validator:"+r.SchemaError)
 			continue
 		}
